@@ -310,9 +310,14 @@ func libpcapCheck(c *sim.Ctx, file []byte, pkts []pkt, lt layers.LinkType, nanos
 // ---------------- pcapng ----------------
 
 func drawStr(c *sim.Ctx, what int) string {
-	n := c.Weighted(3, 2, 2, 2, 2, 1)
+	n := c.Weighted(9, 6, 6, 6, 6, 3, 1)
 	if n == 5 {
 		n = 5 + c.Draw(60)
+	}
+	if n == 6 {
+		// longer than the reader's reusable option buffer (1 KiB), any residue mod 4
+		n = 1020 + c.Draw(1200)
+		c.Fault("long_option_value")
 	}
 	s := make([]byte, n)
 	for i := range s {
